@@ -20,7 +20,7 @@ use crate::util::*;
 pub const PROP: Prop = Prop {
     id: "C10",
     level: "exploration",
-    rule: "(on every input the one-shot entry points - from_*, from_*_custom, from_*_elisp, datum::from_*, datum::from_*_custom, datum::from_*_elisp for str, slice and reader, str::parse, and Parser::expect_value / parse_value / expect_datum followed by expect_end - are compared: to the letter within a source kind, value and error message across source kinds; the span and shape of every car reached through as_pair are compared with the item list_iter yields) inputs from printed values in several dialects (multi-datum streams), mutations of them, token-alphabet sequences and arbitrary bytes x sampled parser option sets (all 1536 reachable) x three sources; the value API and the datum API are run to the end or first error on fresh parsers and compared item by item (value equality, same terminal event with identical message, location and category); value_iter, datum_iter and Iterator for Parser must give the same sequences; every datum is walked recursively through Ref::list_iter (with peek/is_empty), vector_iter, as_pair, Deref and compared with the value's own accessors; non-trivial = at least 2 datums, or a composite datum, or malformed input that yields an item before failing; distinct by digest of (input, options, source)",
+    rule: "(round 9: the item-and-error histories of the value and the datum API are compared to the end of the input, not only up to the first error) (on every input the one-shot entry points - from_*, from_*_custom, from_*_elisp, datum::from_*, datum::from_*_custom, datum::from_*_elisp for str, slice and reader, str::parse, and Parser::expect_value / parse_value / expect_datum followed by expect_end - are compared: to the letter within a source kind, value and error message across source kinds; the span and shape of every car reached through as_pair are compared with the item list_iter yields) inputs from printed values in several dialects (multi-datum streams), mutations of them, token-alphabet sequences and arbitrary bytes x sampled parser option sets (all 1536 reachable) x three sources; the value API and the datum API are run to the end or first error on fresh parsers and compared item by item (value equality, same terminal event with identical message, location and category); value_iter, datum_iter and Iterator for Parser must give the same sequences; every datum is walked recursively through Ref::list_iter (with peek/is_empty), vector_iter, as_pair, Deref and compared with the value's own accessors; non-trivial = at least 2 datums, or a composite datum, or malformed input that yields an item before failing; distinct by digest of (input, options, source)",
     assumptions: &["the accessor walks use the items up to the first error; the item-and-error histories of both APIs are compared to the end of the input"],
     run,
     replay,
